@@ -245,16 +245,17 @@ pub struct C09 {
 
 impl C09 {
     pub fn on(&mut self, rec: &CallRec, pres: &Presented, codec: CodecKind, acc: &mut Acc) -> Verdict {
-        // addresses presented to the instance
+        // addresses presented to the instance in this call
+        let mut named: BTreeSet<u16> = BTreeSet::new();
         match &rec.op {
             Op::Apply(us, _) => {
                 for u in us {
-                    self.told.insert(u.id().addr);
+                    named.insert(u.id().addr);
                 }
             }
             Op::Data(d) => {
                 if let Ok((h, hl)) = wire::decode_header(codec, d) {
-                    self.told.insert(h.src.addr);
+                    named.insert(h.src.addr);
                     // members, as far as they decode
                     if d.len() >= hl + 2 && h.message != Message::Broadcast {
                         let n = ((d[hl] as usize) << 8) | d[hl + 1] as usize;
@@ -262,7 +263,7 @@ impl C09 {
                         for _ in 0..n {
                             match wire::decode_member(codec, &d[p..]) {
                                 Ok((m, l)) => {
-                                    self.told.insert(m.id().addr);
+                                    named.insert(m.id().addr);
                                     p += l;
                                 }
                                 Err(_) => break,
@@ -273,8 +274,46 @@ impl C09 {
             }
             _ => {}
         }
+        self.told.extend(named.iter().copied());
         if rec.res.is_panic() {
             return Ok(());
+        }
+        // no record changes unless the call names its address: a datagram / apply_many names the sender and the
+        // members it lists, a suspicion or forget timer its subject, the probe timer the member whose round just
+        // ended; the instance's own addresses (before and after the call) cover Down(previous identity).
+        // (Catches payload that was supposed to be discarded but is applied by a *later* call.)
+        match &rec.op {
+            Op::Timer(Timer::ChangeSuspectToDown { member_id, .. }) => {
+                named.insert(member_id.addr);
+            }
+            Op::Timer(Timer::RemoveDown(id)) => {
+                named.insert(id.addr);
+            }
+            Op::Timer(Timer::ProbeRandomMember(_)) => {
+                if let Some(t) = &rec.pre.snap.probe_target {
+                    named.insert(t.id().addr);
+                }
+            }
+            _ => {}
+        }
+        named.insert(rec.pre.id.addr);
+        named.insert(rec.post.id.addr);
+        if let Op::ChangeId(n) = &rec.op {
+            named.insert(n.addr);
+        }
+        for m in rec.pre.state.iter().chain(rec.post.state.iter()) {
+            let a = m.id().addr;
+            if rec.pre.rec_for_addr(a) != rec.post.rec_for_addr(a) {
+                ensure!(
+                    named.contains(&a),
+                    "C09/unexplained-record-change",
+                    "{} changed the record for address {a} ({:?} -> {:?}) although nothing in the call names that address (named: {named:?})",
+                    rec.op.name(),
+                    rec.pre.rec_for_addr(a),
+                    rec.post.rec_for_addr(a)
+                );
+                acc.tally("record_changes_explained_by_the_call", 1);
+            }
         }
         let own = rec.post.id.addr;
         let mut addrs = BTreeSet::new();
